@@ -8,7 +8,7 @@
 From Coq Require Import ZArith List Bool.
 From HV Require Gen.GenCopies Spec.IsolationSpec Model.IsolationModel Proofs.IsolationProofs.
 From HV Require Base.SmtBV Model.SexpDefs Gen.GenRefine Spec.SmtQuerySpec Model.SmtTextModel Proofs.SmtTextProofs.
-From HV Require Gen.GenDynRoom Proofs.DynRoomProofs.
+From HV Require Gen.GenDynRoom Proofs.DynRoomProofs Base.Word Gen.GenArithRw Model.ArithRwModel Proofs.ArithRwProofs.
 From HV Require Import Gen.GenPanic Gen.GenRunTest Spec.PanicSpec Model.RunnerModel Proofs.RunnerProofs.
 Import ListNotations.
 Open Scope Z_scope.
@@ -146,6 +146,31 @@ Theorem C03_room_is_a_candidate : forall sizes, sizes <> [] ->
   In (GenDynRoom.array_room sizes) sizes /\ In (GenDynRoom.bytes_room sizes) sizes.
 Proof. exact DynRoomProofs.room_is_a_candidate. Qed.
 Print Assumptions C03_room_is_a_candidate.
+
+(* distinct parameters are independent symbols: the k-th symbol of a calldata is the z3 constant named
+   p_<name>_<type|length>_<uid()>_<counter>, with a uid() drawn for this very symbol (regenerated: the f-strings of
+   Calldata.encode / get_dyn_sizes); uid() being a fresh-name stream, two symbols never coincide, whatever the ABI
+   names and types of the parameters (unnamed parameters, equal names) *)
+Theorem C03_distinct_parameters_distinct_symbols :
+  forall (uid_of : nat -> Z), (forall i j, uid_of i = uid_of j -> i = j) -> forall (tag : Z) k1 k2, k1 <> k2 ->
+    (forall n1 t1 c1 n2 t2 c2, DynRoomProofs.value_symbol uid_of tag k1 n1 t1 c1 <> DynRoomProofs.value_symbol uid_of tag k2 n2 t2 c2) /\
+    (forall n1 c1 n2 c2, DynRoomProofs.length_symbol uid_of tag k1 n1 c1 <> DynRoomProofs.length_symbol uid_of tag k2 n2 c2).
+Proof. exact DynRoomProofs.distinct_symbols. Qed.
+Print Assumptions C03_distinct_parameters_distinct_symbols.
+
+(* no term-level simplification that holds only for some operand values: whatever the syntactic shape of the dividend
+   (a product of narrow factors, the divisor being one of them), the term SEVM.arith builds for DIV evaluates to the EVM
+   quotient for ALL values -- in particular 0 for a zero divisor (regenerated: is div_xy_y applied, what it checks) *)
+Theorem C03_div_is_the_evm_quotient :
+  forall x y (shape : option ArithRwModel.product), ArithRwModel.arith_div x y shape = Word.evm_div x y.
+Proof. exact ArithRwProofs.arith_div_exact. Qed.
+Print Assumptions C03_div_is_the_evm_quotient.
+
+(* the side constraints arith appends to the path for a symbolic quotient / remainder hold for all words *)
+Theorem C03_arith_side_constraints_valid : forall x y, Word.in_word x -> Word.in_word y ->
+  GenArithRw.div_side (Word.evm_div x y) x y = true /\ GenArithRw.mod_side (Word.evm_mod x y) x y = true.
+Proof. exact ArithRwProofs.side_constraints_valid. Qed.
+Print Assumptions C03_arith_side_constraints_valid.
 
 (* refine_exact (`forall q i, qsat q i -> qsat (refine q) i`): each rule of solve.refine replaces the
    abstraction f_evm_<op>_N by a define-fun whose value, for every width and all operands, is the exact EVM
